@@ -1,5 +1,7 @@
 """Machine tie: real BlockSeries (series.py) vs the Lean state machine on random series networks,
 request histories (scalar, slice, pop, contains) and fault plans."""
+import os, sys; sys.path.insert(0, os.path.dirname(os.path.abspath(__file__)))
+from common import case_rnd, skip
 import sys, json, random, subprocess, warnings
 warnings.simplefilter("ignore")
 import numpy as np
@@ -107,6 +109,8 @@ def main(seed, ncases, driver, out):
     proc = subprocess.Popen([driver], stdin=subprocess.PIPE, stdout=subprocess.PIPE, text=True)
     failures = []; kinds = {}; samples = []; distinct = set(); evals = 0
     for c in range(ncases):
+        if skip(c): continue
+        rnd = case_rnd(seed, c)
         specs, faults, reqs = gen_case(rnd)
         impl = run_impl(specs, faults, reqs)
         case = {"series": specs, "faults": [{"at": k, "kind": v} for k, v in faults.items()], "requests": reqs}
